@@ -44,6 +44,9 @@ pub struct Params {
     /// link delay against a responding peer while port 1 is slave of the master
     #[serde(default)]
     pub bc_p2p_sibling: bool,
+    /// domainNumber of every instance in the run
+    #[serde(default)]
+    pub domain: u8,
 }
 
 pub struct Outcome {
@@ -138,6 +141,7 @@ pub fn simulate(p: &Params, horizon_s: f64) -> Outcome {
     let mut mb = Build::new(0x10);
     mb.priority1 = 100;
     mb.log_sync = p.log_sync;
+    mb.domain = p.domain;
     mb.log_delay = p.log_delay;
     mb.clock = Some(mclock.clone());
     mb.seed = p.seed ^ 1;
@@ -148,6 +152,7 @@ pub fn simulate(p: &Params, horizon_s: f64) -> Outcome {
     let mut sb = Build::new(0x20);
     sb.priority1 = 200;
     sb.log_sync = p.log_sync;
+    sb.domain = p.domain;
     sb.log_delay = p.log_delay;
     sb.filter = Some(FilterCfg::Kalman(KalmanConfiguration::default()));
     sb.clock = Some(sclock.clone());
@@ -171,6 +176,7 @@ pub fn simulate(p: &Params, horizon_s: f64) -> Outcome {
         let mut b2 = Build::new(0x30);
         b2.priority1 = 150;
         b2.log_sync = p.log_sync;
+        b2.domain = p.domain;
         b2.log_delay = p.log_delay;
         b2.master_only = vec![true];
         b2.clock = Some(c2);
@@ -190,6 +196,7 @@ pub fn simulate(p: &Params, horizon_s: f64) -> Outcome {
         b3.priority1 = 150;
         b3.p2p = true;
         b3.log_sync = p.log_sync;
+        b3.domain = p.domain;
         b3.log_delay = p.log_delay;
         b3.clock = Some(c3);
         b3.seed = p.seed ^ 4;
@@ -285,6 +292,7 @@ pub fn gen_params(rng: &mut StdRng, i: u64) -> Params {
         second_master: [0u8, 0, 0, 0, 1, 2, 2][rng.gen_range(0..7)],
         second_master_off_s: [0.001, -0.004, 0.3, -1.7][rng.gen_range(0..4)] * rng.gen_range(0.5..1.0),
         bc_p2p_sibling: false,
+        domain: [0u8, 0, 0, 1, 24, 127, 255][rng.gen_range(0..7)],
     };
     let mut p = p;
     if p.second_master == 0 && rng.gen_bool(0.2) {
@@ -319,6 +327,9 @@ pub fn run_case(rep: &mut Report, p: &Params, hist: &mut Vec<f64>, conv: &mut Ve
     }
     if p.bc_p2p_sibling {
         rep.ev("closed_loop_run_boundary_clock_with_p2p_sibling_port");
+    }
+    if p.domain != 0 {
+        rep.ev("closed_loop_run_in_a_non_default_domain");
     }
     if let Ok(path) = std::env::var("VP_C02_DUMP") {
         use std::io::Write;
@@ -384,7 +395,7 @@ pub fn run_case(rep: &mut Report, p: &Params, hist: &mut Vec<f64>, conv: &mut Ve
 
 pub fn run(rep: &mut Report, tier: &str, seed: u64, shard: (u32, u32), replay: Option<&str>) {
     rep.rule = "closed-loop runs: real statime master port (perfect clock) and real slave port with the default Kalman servo over a clock model with initial offset in +-10 s, oscillator error in +-150 ppm, symmetric delay 1-400 us, jitter 0-20 us, sync/delay intervals 2^-3..2^1 s, one-/two-step; corners and random interior points; truth sampled every 100 ms of virtual time; distinct = distinct parameter points; non-trivial = the port became slave and the servo issued commands".into();
-    rep.require(&["closed_loop_run", "set_frequency_calls", "step_clock_calls", "clean_class_run", "closed_loop_run_with_second_master_on_segment", "closed_loop_run_boundary_clock_with_p2p_sibling_port"]);
+    rep.require(&["closed_loop_run", "set_frequency_calls", "step_clock_calls", "clean_class_run", "closed_loop_run_with_second_master_on_segment", "closed_loop_run_boundary_clock_with_p2p_sibling_port", "closed_loop_run_in_a_non_default_domain"]);
     if let Some(path) = replay {
         let v: serde_json::Value = serde_json::from_str(&std::fs::read_to_string(path).unwrap()).unwrap();
         if let Ok(p) = serde_json::from_value::<Params>(v["case"].clone()) {
